@@ -178,6 +178,24 @@ class Interp:
             a = [self_obj] + a
         return self.call_closure(clo, a, dict(kwargs or {}))
 
+    def run_statements(self, stmts, env, mi, returns, cls=None, name="_fragment"):
+        """Interpret a list of statements taken from a function of module `mi`
+        (class `cls`) in the environment `env`; returns the values of the names in
+        `returns`."""
+        import copy as _copy
+
+        ret = ast.Return(value=ast.Tuple(elts=[ast.Name(id=n, ctx=ast.Load()) for n in returns], ctx=ast.Load()))
+        fn = ast.FunctionDef(name=name, args=ast.arguments(posonlyargs=[], args=[ast.arg(arg=k) for k in env], kwonlyargs=[], kw_defaults=[], defaults=[]), body=list(stmts) + [ret], decorator_list=[], returns=None, type_comment=None)
+        if hasattr(fn, "type_params"):
+            fn.type_params = []
+        ast.fix_missing_locations(fn)
+        for n in ast.walk(fn):
+            if not hasattr(n, "lineno"):
+                n.lineno = getattr(stmts[0], "lineno", 0)
+        finfo = FuncInfo(f"{mi.name}.{name}", mi, cls, fn, [])
+        clo = Closure(fn, {}, self, mi.relpath, finfo=finfo)
+        return self.call_closure(clo, list(env.values()), {})
+
     def module_env(self, mi: ModuleInfo):
         return _ModEnv(self, mi)
 
